@@ -3,34 +3,8 @@
 use super::report::*;
 use super::sim::*;
 use super::sim_oracles::*;
-use proptest::prelude::*;
-use proptest::test_runner::{Config, RngAlgorithm, RngSeed, TestCaseError, TestError, TestRunner};
+use super::prop::*;
 use serde_json::{json, Value};
-use std::cell::RefCell;
-use std::sync::{Arc, Mutex};
-
-pub fn proptest_config(cases: u32, seed: u64) -> Config {
-    Config {
-        cases,
-        failure_persistence: None,
-        rng_seed: RngSeed::Fixed(seed),
-        rng_algorithm: RngAlgorithm::ChaCha,
-        max_shrink_iters: 4000,
-        max_global_rejects: 0,
-        ..Config::default()
-    }
-}
-
-pub fn derive_seed(seed: u64, stream: u64) -> u64 {
-    // splitmix-style
-    let mut z = seed
-        .wrapping_mul(0x9E3779B97F4A7C15)
-        .wrapping_add(stream.wrapping_mul(0xBF58476D1CE4E5B9))
-        .wrapping_add(0x94D049BB133111EB);
-    z = (z ^ (z >> 30)).wrapping_mul(0xBF58476D1CE4E5B9);
-    z = (z ^ (z >> 27)).wrapping_mul(0x94D049BB133111EB);
-    z ^ (z >> 31)
-}
 
 pub fn case_summary(case: &SimCase) -> Value {
     let g = &case.graph;
@@ -66,75 +40,6 @@ pub fn case_summary(case: &SimCase) -> Value {
 
 pub type Oracle = fn(&SimCase, &SimRun) -> Verdict;
 
-/// One worker: `cases` generated cases. Returns the coverage part and the shrunk failure if any.
-fn worker(
-    params: SimParams,
-    cases: u32,
-    seed: u64,
-    oracle: Oracle,
-    rule: &str,
-    fixup: fn(&mut SimCase),
-) -> (Part, Option<Failure>) {
-    let part = RefCell::new(Part::new("SIM", rule));
-    let failed = RefCell::new(false);
-    let mut runner = TestRunner::new(proptest_config(cases, seed));
-    let strategy = sim_case(params);
-    let result = runner.run(&strategy, |mut case| {
-        fixup(&mut case);
-        let run = run_case(&case);
-        let v = oracle(&case, &run);
-        if !*failed.borrow() {
-            let mut p = part.borrow_mut();
-            p.evaluations += 1;
-            for c in &v.classes {
-                p.class(c);
-            }
-            if let Some(r) = &v.inconclusive {
-                p.inconclusive(r);
-            }
-            if v.nontrivial && v.violation.is_none() && v.inconclusive.is_none() {
-                let fresh = p.nontrivial.insert(fnv(&v.fingerprint));
-                if fresh && p.samples.len() < 3 {
-                    p.samples.push(case_summary(&case));
-                }
-            }
-        }
-        if let Some(msg) = v.violation {
-            *failed.borrow_mut() = true;
-            return Err(TestCaseError::fail(msg));
-        }
-        Ok(())
-    });
-    let failure = match result {
-        Ok(()) => None,
-        Err(TestError::Fail(reason, mut case)) => {
-            fixup(&mut case);
-            let run = run_case(&case);
-            let v = oracle(&case, &run);
-            let message = v
-                .violation
-                .clone()
-                .unwrap_or_else(|| reason.message().to_string());
-            Some(Failure {
-                signature: format!("sim:{}", message.split(':').next().unwrap_or("")),
-                message,
-                replay: json!({
-                    "engine": "SIM",
-                    "summary": case_summary(&case),
-                    "case": serde_json::to_value(&case).unwrap(),
-                    "history": render_events(&run.events),
-                }),
-            })
-        }
-        Err(TestError::Abort(reason)) => Some(Failure {
-            signature: "sim:abort".into(),
-            message: format!("proptest aborted: {}", reason.message()),
-            replay: json!({"engine": "SIM"}),
-        }),
-    };
-    (part.into_inner(), failure)
-}
-
 fn no_fixup(_: &mut SimCase) {}
 
 pub fn run_sim(
@@ -148,6 +53,34 @@ pub fn run_sim(
     run_sim_with(ctx, params, total_cases, oracle, rule, stream, no_fixup)
 }
 
+pub fn eval_sim(case: &SimCase, oracle: Oracle) -> CaseResult {
+    let run = run_case(case);
+    let v = oracle(case, &run);
+    let replay = if v.violation.is_some() {
+        json!({
+            "engine": "SIM",
+            "summary": case_summary(case),
+            "case": serde_json::to_value(case).unwrap(),
+            "history": render_events(&run.events),
+        })
+    } else {
+        Value::Null
+    };
+    CaseResult {
+        signature: v
+            .violation
+            .as_ref()
+            .map(|m| format!("sim:{}", m.split(':').next().unwrap_or(""))),
+        violation: v.violation,
+        inconclusive: v.inconclusive,
+        nontrivial: v.nontrivial,
+        fingerprint: v.fingerprint,
+        classes: v.classes,
+        sample: case_summary(case),
+        replay,
+    }
+}
+
 pub fn run_sim_with(
     ctx: &Ctx,
     params: SimParams,
@@ -157,38 +90,24 @@ pub fn run_sim_with(
     stream: u64,
     fixup: fn(&mut SimCase),
 ) -> (Part, Vec<Failure>) {
-    let threads = ctx.threads.max(1);
-    let per = (total_cases as usize).div_ceil(threads) as u32;
-    let results: Arc<Mutex<Vec<(usize, Part, Option<Failure>)>>> =
-        Arc::new(Mutex::new(Vec::new()));
-    std::thread::scope(|scope| {
-        for t in 0..threads {
-            let results = results.clone();
-            let seed = derive_seed(ctx.seed, stream * 1000 + t as u64);
-            let rule = rule.to_string();
-            std::thread::Builder::new()
-                .stack_size(64 << 20)
-                .spawn_scoped(scope, move || {
-                    let (part, failure) = worker(params, per, seed, oracle, &rule, fixup);
-                    results.lock().unwrap().push((t, part, failure));
-                })
-                .expect("spawn worker");
-        }
-    });
-    let mut results = Arc::try_unwrap(results).unwrap().into_inner().unwrap();
-    results.sort_by_key(|r| r.0);
-    let mut part = Part::new("SIM", rule);
-    let mut failures = Vec::new();
-    for (_, p, f) in results {
-        part.merge(p);
-        if let Some(f) = f {
-            failures.push(f);
-        }
-    }
-    // one failure per distinct message is enough
-    failures.dedup_by(|a, b| a.signature == b.signature);
-    failures.truncate(3);
-    (part, failures)
+    let pr = PropRun {
+        ctx,
+        engine: "SIM",
+        rule,
+        total_cases,
+        threads: ctx.threads,
+        max_shrink_iters: 4000,
+        stream,
+    };
+    run_prop(
+        &pr,
+        || sim_case(params),
+        |case: &SimCase| {
+            let mut case = case.clone();
+            fixup(&mut case);
+            eval_sim(&case, oracle)
+        },
+    )
 }
 
 /// Replay of a stored SIM case, bypassing the library.
